@@ -1677,6 +1677,7 @@ class Stream(AbstractStream):
             if isinstance(imol._phase, tmo._phase.LockedPhase):
                 raise RuntimeError('phase is locked; stream cannot be unlinked')
         self._imol = imol.copy() # Proxies share the indexer itself, not only its data
+        if hasattr(self, '_streams'): self._streams.clear() # Phase sub-streams reference the old rows
         self._thermal_condition = self._thermal_condition.copy()
         self.reset_cache()
         
